@@ -108,6 +108,10 @@ static void summary(int i, const long ec[5], long ncc) {
 static void children(int i, int first, int n) {
   T[i].subgraphs_begin_offset = first - i; T[i].subgraphs_end_offset = first + n - i;
 }
+static void work(int i, unsigned long long w) {      /* t_1 of a node; its interval [0, w) */
+  T[i].info.t_1 = w; T[i].info.start.t = 0; T[i].info.end.t = w;
+}
+static unsigned long long some_work(void) { unsigned long long w = nondet_ulong(); __CPROVER_assume(w < (1ULL << 24)); return w; }
 static int resume_kind(void) {          /* how a task is resumed after a wait: all children done, or by the last child */
   return nondet_bool() ? dr_dag_edge_kind_wait_cont : dr_dag_edge_kind_end;
 }
@@ -136,6 +140,14 @@ void h_enum_edges(void) {
     long ncc[4] = {2, 0, 1, 0};
     oracle_edges(4, kd, ec, ncc, zero, LU); }
 
+  /* work: every interval and every (contracted) created task has an arbitrary length; a section / task has the sum of
+     its children's and of the tasks its children created (the accumulate rule) -- whatever is contracted */
+  unsigned long long wa[4], wb[2], wo = some_work(), we = some_work(), WC[3];
+  for (int j = 0; j < 4; j++) wa[j] = some_work();
+  for (int j = 0; j < 2; j++) wb[j] = some_work();
+  for (int j = 0; j < 3; j++) WC[j] = some_work();
+  unsigned long long WA = wa[0] + wa[1] + wa[2] + wa[3] + WC[0] + WC[1], WB = wb[0] + wb[1] + WC[2], WU = WA + wo + WB + we;
+
   /* ---- the dumped DAG in the contraction state of this job ---- */
   g_next = 0;
   int u = put(dr_dag_node_kind_task, dr_dag_edge_kind_create);
@@ -145,27 +157,34 @@ void h_enum_edges(void) {
   int e = put(dr_dag_node_kind_end_task, resume_kind());
   children(u, a, 4); summary(u, LU, 0);
   summary(a, LA, 2); summary(b, LB, 1);
-  (void)o; (void)e;
+  work(u, WU); work(a, WA); work(o, wo); work(b, WB); work(e, we);
   if (!A_CONTRACTED) {
     int y1 = put(dr_dag_node_kind_create_task, dr_dag_edge_kind_create);
     put(dr_dag_node_kind_other, dr_dag_edge_kind_create_cont);
     int y2 = put(dr_dag_node_kind_create_task, dr_dag_edge_kind_other_cont);
     put(dr_dag_node_kind_wait_tasks, dr_dag_edge_kind_create_cont);
     children(a, y1, 4);
-    int c1 = put(dr_dag_node_kind_task, dr_dag_edge_kind_create); summary(c1, C[0], 0); T[y1].child_offset = c1 - y1;
-    int c2 = put(dr_dag_node_kind_task, dr_dag_edge_kind_create); summary(c2, C[1], 0); T[y2].child_offset = c2 - y2;
+    work(y1, wa[0]); work(y1 + 1, wa[1]); work(y2, wa[2]); work(y2 + 1, wa[3]);
+    int c1 = put(dr_dag_node_kind_task, dr_dag_edge_kind_create); summary(c1, C[0], 0); T[y1].child_offset = c1 - y1; work(c1, WC[0]);
+    int c2 = put(dr_dag_node_kind_task, dr_dag_edge_kind_create); summary(c2, C[1], 0); T[y2].child_offset = c2 - y2; work(c2, WC[1]);
   }
   if (!B_CONTRACTED) {
     int y3 = put(dr_dag_node_kind_create_task, dr_dag_edge_kind_other_cont);
     put(dr_dag_node_kind_wait_tasks, dr_dag_edge_kind_create_cont);
     children(b, y3, 2);
-    int c3 = put(dr_dag_node_kind_task, dr_dag_edge_kind_create); summary(c3, C[2], 0); T[y3].child_offset = c3 - y3;
+    work(y3, wb[0]); work(y3 + 1, wb[1]);
+    int c3 = put(dr_dag_node_kind_task, dr_dag_edge_kind_create); summary(c3, C[2], 0); T[y3].child_offset = c3 - y3; work(c3, WC[2]);
   }
   G.n = g_next; G.T = T; G.m = 0; G.E = 0; G.S = 0; G.num_workers = 1; G.start_clock = 0;
 
   dr_pi_dag_enum_edges(&G);                    /* dr_dump.c: materialise the edges */
   BS.G = &G; BS.n_workers = 1; BS.edge_counts = 0;
   dr_calc_edges(&BS, &G);                      /* gen_stat.c: reported = materialised + contracted summaries */
+
+  dr_calc_inner_delay(&BS, &G);                /* gen_stat.c: reported work and elapsed = sums over what is materialised */
+  __CPROVER_assert(BS.total_t_1 == WU && WU == T[0].info.t_1,
+                   "dump: reported work (sum over the materialised intervals and the contracted nodes) = work of the complete DAG");
+  __CPROVER_assert(BS.total_elapsed == WU, "dump: reported elapsed total = sum of the interval lengths (every interval counted once)");
 
   long R[5];
   for (int k = 0; k < 5; k++) R[k] = BS.edge_counts[k * 4 + 0] + BS.edge_counts[k * 4 + 1] + BS.edge_counts[k * 4 + 2] + BS.edge_counts[k * 4 + 3];
